@@ -72,6 +72,10 @@ fn collect_quotes(ts: TokenStream, out: &mut Vec<TokenStream>) {
     }
 }
 
+/// identifier-like members of `dict_values` of the first corpus loaded by this process: the
+/// generators that have no corpus argument use them as type names
+pub static TYPE_WORDS: std::sync::OnceLock<Vec<String>> = std::sync::OnceLock::new();
+
 pub struct Corpus {
     pub items: Vec<Item>,
     pub files: usize,
@@ -88,12 +92,46 @@ pub struct Corpus {
     /// identifier-like string literals of the sources that are NOT part of the DSL this
     /// generator knows: keywords a change may have added (instructions, parameters)
     pub dict_keywords: Vec<String>,
+    /// lifetime names written anywhere in the expander's sources (`'o2o`): names an input may use too
+    pub dict_lifetimes: Vec<String>,
+    /// identifiers written inside the expander's `quote!`/`parse_quote!` templates (`value`, `other`,
+    /// `obj`, ...): names of generated bindings, which an input's fields and parameters may share
+    pub dict_idents: Vec<String>,
+    /// short string literals of the sources that are not DSL keywords ("16", "32", "usize"):
+    /// what the expander may compare the *value* of a variable, or a type, against
+    pub dict_values: Vec<String>,
 }
 
 /// A dictionary in the fuzzing sense, taken from the working tree under test: whatever the
 /// expander compares its surroundings against is written somewhere in its sources.
-fn source_dictionary(repo: &Path) -> (Vec<String>, Vec<String>, Vec<String>, Vec<String>) {
+fn source_dictionary(repo: &Path) -> (Vec<String>, Vec<String>, Vec<String>, Vec<String>, Vec<String>, Vec<String>, Vec<String>) {
     let mut lits: Vec<String> = Vec::new();
+    let mut lifetimes: Vec<String> = Vec::new();
+    let mut qidents: Vec<String> = Vec::new();
+    fn walk_names(ts: TokenStream, in_quote: bool, lts: &mut Vec<String>, ids: &mut Vec<String>) {
+        let v: Vec<TokenTree> = ts.into_iter().collect();
+        for i in 0..v.len() {
+            match &v[i] {
+                TokenTree::Punct(p) if p.as_char() == '\'' => {
+                    if let Some(TokenTree::Ident(id)) = v.get(i + 1) {
+                        lts.push(format!("'{}", id));
+                    }
+                },
+                TokenTree::Ident(id) if in_quote => {
+                    // `#name` is an interpolation, not a name of the template
+                    let interpolated = i > 0 && matches!(&v[i - 1], TokenTree::Punct(p) if p.as_char() == '#');
+                    if !interpolated {
+                        ids.push(id.to_string());
+                    }
+                },
+                TokenTree::Group(g) => {
+                    let opens_quote = i >= 2 && matches!(&v[i - 1], TokenTree::Punct(p) if p.as_char() == '!') && matches!(&v[i - 2], TokenTree::Ident(id) if id == "quote" || id == "parse_quote" || id == "quote_spanned");
+                    walk_names(g.stream(), in_quote || opens_quote, lts, ids);
+                },
+                _ => {},
+            }
+        }
+    }
     fn walk(ts: TokenStream, out: &mut Vec<String>) {
         for t in ts {
             match t {
@@ -122,8 +160,31 @@ fn source_dictionary(repo: &Path) -> (Vec<String>, Vec<String>, Vec<String>, Vec
             continue;
         }
         if let Ok(src) = std::fs::read_to_string(&f) {
+            // lifetime-shaped words anywhere in the text (tokens, string literals, comments)
+            let b = src.as_bytes();
+            let mut i = 0;
+            while i + 1 < b.len() {
+                if b[i] == b'\'' && (b[i + 1].is_ascii_lowercase() || b[i + 1] == b'_') && (i == 0 || !(b[i - 1].is_ascii_alphanumeric() || b[i - 1] == b'_')) {
+                    let mut j = i + 1;
+                    while j < b.len() && (b[j].is_ascii_alphanumeric() || b[j] == b'_') {
+                        j += 1;
+                    }
+                    if j >= b.len() || b[j] != b'\'' {
+                        let w = &src[i..j];
+                        lifetimes.push(w.to_string());
+                        let t = w.trim_end_matches('_');
+                        if t.len() > 1 {
+                            lifetimes.push(t.to_string());
+                        }
+                    }
+                    i = j;
+                } else {
+                    i += 1;
+                }
+            }
             if let Ok(ts) = src.parse::<TokenStream>() {
-                walk(ts, &mut lits);
+                walk(ts.clone(), &mut lits);
+                walk_names(ts, false, &mut lifetimes, &mut qidents);
             }
         }
     }
@@ -160,7 +221,25 @@ fn source_dictionary(repo: &Path) -> (Vec<String>, Vec<String>, Vec<String>, Vec
         .cloned()
         .collect();
     kw.truncate(24);
-    (env, argv, pre, kw)
+    lifetimes.sort();
+    lifetimes.dedup();
+    lifetimes.retain(|l| l != "'static" && l != "'_" && l != "'a" && l != "'b");
+    lifetimes.truncate(16);
+    const RUST_KW: [&str; 40] = [
+        "as", "break", "const", "continue", "crate", "else", "enum", "extern", "false", "fn", "for", "if", "impl", "in", "let", "loop", "match", "mod", "move", "mut", "pub", "ref", "return", "self", "Self", "static", "struct", "super", "trait", "true", "type", "unsafe", "use", "where", "while", "async", "await", "dyn", "try",
+        "macro_rules",
+    ];
+    qidents.sort();
+    qidents.dedup();
+    qidents.retain(|s| !RUST_KW.contains(&s.as_str()) && s.len() >= 2 && s.chars().next().map(|c| c.is_ascii_lowercase() || c == '_').unwrap_or(false));
+    qidents.truncate(48);
+    let mut values: Vec<String> = lits
+        .iter()
+        .filter(|s| !s.is_empty() && s.len() <= 16 && !s.contains(char::is_whitespace) && !s.contains('{') && !s.contains('\\') && !KNOWN.contains(&s.as_str()) && !is_caps(s) && !s.starts_with("--"))
+        .cloned()
+        .collect();
+    values.truncate(48);
+    (env, argv, pre, kw, lifetimes, qidents, values)
 }
 
 pub fn load(repo: &Path) -> Corpus {
@@ -230,6 +309,7 @@ pub fn load(repo: &Path) -> Corpus {
             }
         }
     }
-    let (dict_env, dict_argv, dict_env_prefixes, dict_keywords) = source_dictionary(repo);
-    Corpus { items, files, from_tests_dir, from_unit_tests, from_docs, dict_env, dict_argv, dict_env_prefixes, dict_keywords }
+    let (dict_env, dict_argv, dict_env_prefixes, dict_keywords, dict_lifetimes, dict_idents, dict_values) = source_dictionary(repo);
+    let _ = TYPE_WORDS.set(dict_values.iter().filter(|s| s.chars().all(|c| c.is_ascii_alphanumeric() || c == '_') && s.chars().next().map(|c| c.is_ascii_alphabetic()).unwrap_or(false)).cloned().collect());
+    Corpus { items, files, from_tests_dir, from_unit_tests, from_docs, dict_env, dict_argv, dict_env_prefixes, dict_keywords, dict_lifetimes, dict_idents, dict_values }
 }
